@@ -72,6 +72,10 @@ def gen_ops(rng, n, malformed):
 
 
 def cases(tier, seed, phase):
+    for j in range(40 if tier == 'quick' else 600):
+        rng = rng_for(seed, 'c15w', j)
+        yield {'kind': 'wait', 'backend': ['redis', 'cloud'][j % 2], 'writes': [[k, rng.choice([1, 2, 3]), 1000 + rng.randrange(0, 50)] for k in range(rng.randint(1, 5))],
+               'reader_first': rng.random() < 0.5}
     n = 900 if tier == 'quick' else 12000
     for j in range(n):
         for b in BACKENDS:
@@ -197,7 +201,78 @@ def model_line(ops, kind):
     return 'store %s %s' % (kind, ';'.join(parts) or '-')
 
 
+class FakeMessageQueue(object):
+    """The message queue a CloudStorage may be given (as the SQS / Cloud Queues adapters are used)."""
+
+    def __init__(self):
+        self.items = []
+        self.n = 0
+
+    def queue_message(self, storage_id, timestamp):
+        self.n += 1
+        self.items.append((timestamp, storage_id, 'mq%d' % self.n))
+
+    def poll(self):
+        return list(self.items)
+
+    def delete(self, message_id):
+        self.items = [x for x in self.items if x[2] != message_id]
+
+    def sleep(self):
+        import gevent
+        gevent.sleep(0.001)
+
+
+def run_wait(case, model):
+    """The storage's wait mechanism (QueueStorage.wait: "messages written by another process"): every message written through one
+    storage object is announced, once, with its id and timestamp, by wait() of another storage object over the same backend."""
+    import gevent
+    hits = []
+    be = Backend(case['backend'])
+    try:
+        if case['backend'] == 'redis':
+            from slimta.redisstorage import RedisStorage
+            writer = be.store
+            reader = RedisStorage(port=writer.redis.connection_pool.connection_kwargs['port'], prefix=writer.prefix)
+        else:
+            from slimta.cloudstorage import CloudStorage
+            mq = FakeMessageQueue()
+            writer = CloudStorage(be.store.obj_store, mq)
+            reader = CloudStorage(be.store.obj_store, mq)
+        announced = []
+
+        def pump():
+            while True:
+                for ts, sid in reader.wait():
+                    announced.append((float(ts), canon_id(sid)))
+        g = None
+        if case['reader_first']:
+            g = gevent.spawn(pump)
+            gevent.sleep(0.002)
+        written = []
+        for k, nr, ts in case['writes']:
+            sid = writer.write(make_env(k, nr), float(ts))
+            written.append((float(ts), canon_id(sid)))
+        if g is None:
+            g = gevent.spawn(pump)
+        for _ in range(200):
+            gevent.sleep(0.003)
+            if len(announced) >= len(written):
+                break
+        gevent.sleep(0.01)
+        g.kill(block=False)
+        if sorted(announced) != sorted(written):
+            hits.append(hit('c15.%s.wait-announcements' % case['backend'], 'wait() did not announce exactly the messages written through another storage object '
+                            '(each once, with its id and timestamp)', observed=sorted(announced)[:6], expected=sorted(written)[:6]))
+    finally:
+        be.close()
+    key = ('wait', case['backend'], repr(case['writes']), case['reader_first'])
+    return CaseResult(None, hits, key, [case['backend'], 'wait-announcements'])
+
+
 def run_case(case, model):
+    if case.get('kind') == 'wait':
+        return run_wait(case, model)
     import gevent
     be = Backend(case['backend'])
     ops = case['ops']
@@ -229,8 +304,18 @@ def run_case(case, model):
                 if len(phase) == 1:
                     outs[n] = do_op(be, ops[n], ids, rev)
                 else:
+                    # a start-up scan (load) runs next to the overlapped operations: it may see or miss a message being written,
+                    # its listing is not compared, but it must not disturb the others
+                    def scan():
+                        try:
+                            list(be.store.load())
+                        except Exception:
+                            pass
                     gs = [gevent.spawn(do_op, be, ops[k], ids, rev) for k in phase]
+                    # spawned after them: the scans start when the operations yield for the first time, in the middle of their work
+                    sgs = [gevent.spawn(scan) for _ in range(3)] if case['backend'] != 'dict' else []
                     gevent.joinall(gs)
+                    gevent.joinall(sgs)
                     for k, g in zip(phase, gs):
                         outs[k] = g.value if g.successful() else 'raise:%s' % type(g.exception).__name__
                 n = phase[-1] + 1
